@@ -126,8 +126,16 @@ def make_job(structs, lay, outdir):
                           "slices": [{"off": off, "elem": slice_bytes(ft, v)[1]} for (off, ft, v) in slices]})
             meta.setdefault(s.name, []).append((vals, exp, slices))
         fl = J.flatten_spec(s, s.values()[0], lay)
+        wrappers = []
+        if not s.lifetime:
+            sbytes = cases[0]["read_bytes"]
+            kind = {"()": "unit", "u8": "u8", "u64": "u64", "En": "en", "@": "struct"}
+            for w, (okt, errt) in J.WRAPPERS.items():
+                wl = lay["%s|%s" % (s.name, w)]
+                wrappers.append({"w": w, "flag_off": wl["flag"], "ok_kind": kind[okt], "err_kind": kind[errt],
+                                 "ok_hex": sbytes if okt == "@" else J.ARM_BYTES[okt].hex(), "err_hex": sbytes if errt == "@" else J.ARM_BYTES[errt].hex()})
         job["structs"].append({"name": s.name, "owner": s.owner, "lifetime": s.lifetime, "size": l["size"], "align": l["align"], "single_scalar": "buffer" not in fl[0],
-                               "fields": [{"name": n, "ft": ft_json(f)} for n, f in s.fields], "cases": cases})
+                               "fields": [{"name": n, "ft": ft_json(f)} for n, f in s.fields], "cases": cases, "wrappers": wrappers})
     return job, meta
 
 
@@ -187,6 +195,68 @@ class _Norm:
         return self.rep.violation(key, witness, what)
 
 
+ARM_VALUE = {"u8": 0x7B, "u64": {"big": str(0x0102030405060708)}, "en": {"en": 5}, "unit": "unit"}
+
+
+def judge_wrapped(rep, abi, s, lay, meta, res, stats, cls):
+    """methods returning Result<..> / Option<..> around the struct: the receive buffer must hold Rust's record (payload union + flag),
+    be aligned for it, and the arm JS decodes must be the one whose flag Rust wrote, with the payload values intact"""
+    if s.lifetime:
+        return
+    vals0 = meta[s.name][0][0]
+    want_struct = [enc_val(f, v) for (_, f), v in zip(s.fields, vals0)]
+    for rec in res.get("wrapped") or []:
+        w = rec["w"]
+        okt, errt = J.WRAPPERS[w]
+        wl = lay["%s|%s" % (s.name, w)]
+        stats["wrapped"] = stats.get("wrapped", 0) + 1
+        sig = "Option<S>" if w == "o" else "Result<%s, %s>" % (okt.replace("@", "S"), errt.replace("@", "S"))
+        base = {"struct": s.name, "fields": cls, "returns": sig, "rust_layout": wl, "record": rec}
+        if "error" in rec:
+            raise MachineryError("driver error on %s wrapper %s: %s" % (s.name, w, rec["error"]))
+        if not rec.get("called"):
+            rep.violation("C08|%s|wrapped|%s|export-not-called" % (abi, sig), base, "method returning %s around struct {%s} never calls its export" % (sig, cls))
+            continue
+        allocs = rec.get("allocs") or []
+        if not allocs or not rec.get("ptr_is_alloc"):
+            rep.violation("C08|%s|wrapped|%s|no-receive-buffer" % (abi, sig), base, "method returning %s around struct {%s}: first argument is not a receive buffer" % (sig, cls))
+            continue
+        a = allocs[0]
+        if a["size"] < wl["flag"] + 1:
+            rep.violation("C08|%s|wrapped|%s|buffer-too-small" % (abi, sig), base,
+                          "method returning %s around struct {%s}: receive buffer of %d bytes, Rust writes the flag at offset %d (record size %d)" % (sig, cls, a["size"], wl["flag"], wl["size"]))
+            continue
+        if a["align"] % wl["align"] != 0:
+            rep.violation("C08|%s|wrapped|%s|buffer-under-aligned" % (abi, sig), base,
+                          "method returning %s around struct {%s}: receive buffer aligned to %d, Rust's record needs %d" % (sig, cls, a["align"], wl["align"]))
+        flag = rec["flag"]
+        arm = (okt if flag else errt)
+        kind = {"()": "unit", "u8": "u8", "u64": "u64", "En": "en", "@": "struct"}[arm]
+        want = want_struct if kind == "struct" else ARM_VALUE[kind]
+        # how each arm surfaces in JS: Ok -> return value; Err(()) / None -> null; Err(E) -> exception with cause
+        if flag or arm == "()":
+            got_arm_ok = not rec["thrown"]
+            got = rec.get("ret")
+            if not flag:
+                want = None
+            elif kind == "unit":
+                want = "unit"
+        else:
+            got_arm_ok = rec["thrown"]
+            got = rec.get("cause")
+
+        def same(wv, gv):
+            if kind == "struct" and wv is not None and gv is not None:
+                return all(same_val(ft, e, g) for (_, ft), e, g in zip(s.fields, wv, gv))
+            return wv == gv
+        if not got_arm_ok:
+            rep.violation("C08|%s|wrapped|%s|wrong-arm|flag=%d" % (abi, sig, flag), dict(base, expected=want),
+                          "method returning %s around struct {%s}: Rust wrote is_ok=%d at offset %d, JS took the other arm" % (sig, cls, flag, wl["flag"]))
+        elif not same(want, got):
+            rep.violation("C08|%s|wrapped|%s|payload|flag=%d" % (abi, sig, flag), dict(base, expected=want, got=got),
+                          "method returning %s around struct {%s}: is_ok=%d payload decoded as %s, Rust stored %s" % (sig, cls, flag, json.dumps(got)[:120], json.dumps(want)[:120]))
+
+
 def judge(rep0, abi, structs, lay, meta, results, stats):
     byname = {s.name: s for s in structs}
     for res in results:
@@ -208,6 +278,7 @@ def judge(rep0, abi, structs, lay, meta, results, stats):
         elif not allocs or (allocs[0]["size"], allocs[0]["align"]) != (l["size"], l["align"]):
             rep.violation("C08|%s|receive-buffer|fields=%s" % (abi, cls), {"struct": s.name, "fields": cls, "expected": [l["size"], l["align"]], "allocs": allocs, "give_exc": res.get("give_exc")},
                           "method returning struct {%s}: receive buffer %s, Rust layout size/align %s" % (cls, allocs[:1], (l["size"], l["align"])))
+        judge_wrapped(rep, abi, s, lay, meta, res, stats, cls)
         for (vals, exp, slices), c in zip(meta[s.name], res["cases"]):
             stats["cases"] += 1
             encv = [enc_val(f, v) for (_, f), v in zip(s.fields, vals)]
@@ -308,8 +379,9 @@ def run(tier):
                for s in (structs[5], s0, structs[-1])]
     cov = {
         "states": len(structs) * 2,
-        "transitions": stats["cases"] * 3 + stats["recv"],
-        "traces_validated_against_impl": stats["cases"] * 3 + stats["recv"],
+        "transitions": stats["cases"] * 3 + stats["recv"] + stats.get("wrapped", 0),
+        "traces_validated_against_impl": stats["cases"] * 3 + stats["recv"] + stats.get("wrapped", 0),
+        "wrapped_return_judgements": stats.get("wrapped", 0),
         "evaluations": stats["cases"],
         "distinct_nontrivial": len({(field_classes(s)) for s in structs if len({f.key for _, f in s.fields}) > 1 or len(s.fields) == 1}),
         "rule": "one struct per ordered field tuple over the field alphabet; per struct every field's value alphabet with the others fixed (+ all-first / all-last); per value: bytes written, values "
